@@ -8,6 +8,7 @@ import (
 	"encoding/json"
 	"fmt"
 	"os"
+	"os/exec"
 	"path/filepath"
 	"sort"
 	"strings"
@@ -183,11 +184,13 @@ func cmdCheck(repo, root string, args []string) int {
 			}
 		}
 	}
+	w.Covers = tier == "thorough"
 	loadS := time.Since(t0).Seconds()
 	// the theory layer: every T1 lemma is re-proved from T0 + observer definitions on each run
 	lemRes := proveLemmas(theories["T0"], timeout)
 	var obls []*Obligation
 	var vac []*Obligation
+	var covers []*Obligation
 	var genErrs []string
 	assumed := map[string]bool{}
 	funcs := []string{}
@@ -261,6 +264,7 @@ func cmdCheck(repo, root string, args []string) int {
 			}
 		}
 		vac = append(vac, rep.Vacuity...)
+		covers = append(covers, rep.Covers...)
 	}
 	for _, l := range w.Lemmas {
 		if !hasProp(l.Props, prop) {
@@ -318,6 +322,64 @@ func cmdCheck(repo, root string, args []string) int {
 	}
 	dischargeAll(obls, timeout, 10, allSolvers)
 	dischargeAll(vac, 3*time.Second, 10, []string{"z3", "cvc5"})
+	thorough := map[string]interface{}{}
+	if tier == "thorough" {
+		// (1) clause covers
+		dischargeAll(covers, 5*time.Second, 12, []string{"z3new", "cvc5"})
+		reach := map[string]bool{}
+		seen := map[string]string{}
+		for _, c := range covers {
+			seen[c.Name] = c.Text
+			if c.Result != "unsat" && c.Result != "trivial" {
+				reach[c.Name] = true
+			}
+		}
+		vacuous := []string{}
+		for n, t := range seen {
+			if !reach[n] {
+				vacuous = append(vacuous, n+": "+t)
+			}
+		}
+		sort.Strings(vacuous)
+		thorough["clause_covers_checked"] = len(seen)
+		thorough["clause_covers_reachable"] = len(reach)
+		thorough["clauses_with_unreachable_antecedent"] = vacuous
+		thorough["clause_cover_note"] = "an `A ==> B` clause whose antecedent is refuted on every return path of its behaviour proves nothing there; listed for review, not counted as discharged-with-content (in a named behaviour this is often intended: e.g. err != nil clauses in a behaviour whose requires makes errors impossible)"
+		// (2) stability census
+		rows := censusAll(obls, 10*time.Second, 12, allSolvers)
+		by := map[int]int{}
+		fragile := []string{}
+		for _, r := range rows {
+			by[len(r.Proved)]++
+			if len(r.Proved) <= 1 || r.SlowMS > 5000 {
+				fragile = append(fragile, fmt.Sprintf("%s proved_by=%v fastest_ms=%d", r.Name, r.Proved, r.SlowMS))
+			}
+		}
+		sort.Strings(fragile)
+		if len(fragile) > 60 {
+			fragile = append(fragile[:60], fmt.Sprintf("... and %d more", len(fragile)-60))
+		}
+		thorough["census_instances"] = len(rows)
+		thorough["census_proved_by_n_solvers"] = map[string]int{"3": by[3], "2": by[2], "1": by[1], "0_within_10s_alone": by[0]}
+		thorough["census_fragile"] = fragile
+		// (3) the Lean audit of the T0 axioms that are stated as theorems over List (Fin 256)
+		lt0 := time.Now()
+		cmd := exec.Command("lean", filepath.Join(root, "specs", "lean", "T0.lean"))
+		out, err := cmd.CombinedOutput()
+		if err != nil {
+			return fault("Lean audit of T0 failed: " + strings.TrimSpace(string(out)))
+		}
+		thorough["lean_audit"] = fmt.Sprintf("specs/lean/T0.lean accepted by lean (%.0fs)", time.Since(lt0).Seconds())
+		// (4) bounded validators of the assumed models this property's obligations relied on
+		bc, err := runValidators(repo, root, prop, assumed)
+		if err != nil {
+			return fault(err.Error())
+		}
+		if bc == nil {
+			bc = []map[string]interface{}{}
+		}
+		thorough["bounded_checks_of_assumptions"] = bc
+	}
 	groups := groupObls(obls)
 	// vacuity guards
 	vacBad := []string{}
@@ -544,6 +606,9 @@ func cmdCheck(repo, root string, args []string) int {
 		"load_s":                 loadS,
 		"generate_s":             genS,
 		"contract_files":         relFiles(w.Files, repo),
+	}
+	for k, v := range thorough {
+		cov["thorough."+k] = v
 	}
 	if discharged != nObl-nKnownObl {
 		// the proof did not go through: this run proves nothing; say so rather than claim the level
